@@ -1087,6 +1087,27 @@ class SubTrioSvc(TrioSvc):
     pass
 
 
+class _NoChain:
+    """A subclass whose constructor sets itself up without calling the constructor it inherits."""
+
+    def __init__(self, h, pid):
+        self.h = h
+        self.pid = pid
+        self.init_done = True
+
+
+class NoChainThreadSvc(_NoChain, ThreadSvc):
+    pass
+
+
+class NoChainAioSvc(_NoChain, AioSvc):
+    pass
+
+
+class NoChainTrioSvc(_NoChain, TrioSvc):
+    pass
+
+
 class _Falsy:
     """A live service need not be truthy: a container-like service that is still empty, a gate that is shut."""
 
@@ -1126,6 +1147,7 @@ class EmptyTrioSvc(_Empty, TrioSvc):
 SERVICE_CLASSES = {
     ("threading", "falsy"): FalsyThreadSvc, ("asyncio", "falsy"): FalsyAioSvc, ("trio", "falsy"): FalsyTrioSvc,
     ("threading", "empty"): EmptyThreadSvc, ("asyncio", "empty"): EmptyAioSvc, ("trio", "empty"): EmptyTrioSvc,
+    ("threading", "nochain"): NoChainThreadSvc, ("asyncio", "nochain"): NoChainAioSvc, ("trio", "nochain"): NoChainTrioSvc,
     ("threading", None): ThreadSvc, ("asyncio", None): AioSvc, ("trio", None): TrioSvc,
     ("threading", "subclass"): SubThreadSvc, ("asyncio", "subclass"): SubAioSvc, ("trio", "subclass"): SubTrioSvc,
     ("asyncio", "redecorated-same"): AioOverAioSvc, ("trio", "redecorated-same"): TrioOverTrioSvc,
